@@ -34,11 +34,48 @@ def run(repo: Repo, chk: Check) -> None:
     g = build(f.node)
     rd = ReachingDefs(f, g)
     # ---------------------------------------------------------------- O3 clock
-    clocks = [n for n in body_nodes(f.node) if isinstance(n, ast.Call) and repo.dotted(n.func, f.mod) in ("time.time_ns", "time.time", "time.monotonic", "time.monotonic_ns", "datetime.datetime.now", "datetime.datetime.utcnow")]
-    ok = len(clocks) == 1 and repo.dotted(clocks[0].func, f.mod) == "time.time_ns"
-    chk.ob("O3", Site.of(f, clocks[0] if clocks else None, None if clocks else "clock read"), ok, "one integer clock read time.time_ns()" if ok else f"{len(clocks)} clock reads {[unparse(c) for c in clocks]}: the indices must come from a single time.time_ns() value")
-    if not clocks:
-        raise AnalysisError("no clock read in _get_protection_gke_from_cache")
+    CLOCKS = ("time.time_ns", "time.time", "time.monotonic", "time.monotonic_ns", "datetime.datetime.now", "datetime.datetime.utcnow")
+
+    def is_clock(fn: Func, n: ast.AST) -> bool:
+        return isinstance(n, ast.Call) and repo.dotted(n.func, fn.mod) in CLOCKS
+
+    def reads_per_call(fn: Func, depth: int = 0) -> t.Tuple[int, t.List[t.Tuple[Func, ast.Call]]]:
+        """Number of clock reads one call of fn performs (helpers followed), with the read sites."""
+        sites: t.List[t.Tuple[Func, ast.Call]] = []
+        total = 0
+        if depth > 4:
+            return 0, sites
+        for n in body_nodes(fn.node):
+            if is_clock(fn, n):
+                total += 1
+                sites.append((fn, t.cast(ast.Call, n)))
+            elif isinstance(n, ast.Call):
+                tgt = world.resolve_call(fn, n)
+                if isinstance(tgt, Func) and tgt.qual != fn.qual and tgt.mod is fn.mod:
+                    k, s2 = reads_per_call(tgt, depth + 1)
+                    total += k
+                    sites += s2
+        return total, sites
+
+    # a clock value must be read when the call happens: never in a default argument or at module level
+    for g in [x for x in repo.funcs.values() if x.mod is f.mod]:
+        a = g.node.args
+        for d in list(a.defaults) + [x for x in a.kw_defaults if x is not None]:
+            for n in ast.walk(d):
+                if is_clock(g, n):
+                    chk.ob("O3", Site.of(g, n, f"default argument of {g.name}"), False, f"{unparse(n)} in a default argument is evaluated once at import: every later call names the interval of the import time")
+    for name, expr in f.mod.consts.items():
+        for n in ast.walk(expr):
+            if isinstance(n, ast.Call) and repo.dotted(n.func, f.mod) in CLOCKS:
+                chk.ob("O3", Site(f.file, "module level", getattr(n, "lineno", 0), f"{name} = {unparse(expr)[:60]}"), False, "the clock is read at import time")
+    nreads, sites = reads_per_call(f)
+    clocks = [c for g, c in sites]
+    ok = nreads == 1 and repo.dotted(sites[0][1].func, sites[0][0].mod) == "time.time_ns"
+    chk.ob("O3", Site.of(sites[0][0], clocks[0]) if sites else Site.of(f, construct="clock read"), ok, "one integer clock read time.time_ns() per call" if ok else f"{nreads} clock reads per call ({[g.name + ': ' + unparse(c) for g, c in sites]}): the three indices must come from a single time.time_ns() value, otherwise a boundary crossed between the reads yields an interval the clock was never in")
+    if not sites:
+        if any(not o.ok for o in chk.obligations):
+            return  # already reported (e.g. the clock is read in a default argument)
+        raise AnalysisError("no clock read reachable from _get_protection_gke_from_cache")
     # ---------------------------------------------------------------- O1 exact arithmetic
     divs = [n for n in body_nodes(f.node) if isinstance(n, ast.BinOp) and isinstance(n.op, ast.Div)]
     chk.count("true divisions", len(divs))
@@ -81,8 +118,11 @@ def run(repo: Repo, chk: Check) -> None:
         ok = (D, M) == (wantD, wantM) and tv == tvar
         chk.ob("O2", site, ok, f"{role} = floor({tv} / {D})" + (f" mod {M}" if M else "") if ok else f"{role} normalises to floor({tv} / {D})" + (f" mod {M}" if M else "") + f", MS-GKDI 3.1.4.1 says floor(t / {wantD})" + (f" mod {wantM}" if wantM else ""))
     chk.count("index formulas", len(role_defs))
-    chk.require_min("index formulas", 3)
+    if not any(not o.ok for o in chk.obligations):
+        chk.require_min("index formulas", 3)
     if tvar is None:
+        if any(not o.ok for o in chk.obligations):
+            return
         raise AnalysisError("time variable not identified")
     # t = time_ns() // 100 + EPOCH, one definition for all three
     some = next(iter(role_defs.values()))
@@ -92,6 +132,12 @@ def run(repo: Repo, chk: Check) -> None:
     if td is not None and td.value is not None:
         why = f"{tvar} = {unparse(td.value)}"
         okt = is_filetime(repo, f, td.value, clocks[0])
+        if not okt and isinstance(td.value, ast.Call) and not td.value.args and not td.value.keywords:
+            # FILETIME computed by a helper: def h(): return time.time_ns() // 100 + EPOCH
+            tgt = world.resolve_call(f, td.value)
+            if isinstance(tgt, Func):
+                rets_h = [n for n in body_nodes(tgt.node) if isinstance(n, ast.Return) and n.value is not None]
+                okt = len(rets_h) == 1 and is_filetime(repo, tgt, rets_h[0].value, clocks[0])
     chk.ob("O2", Site.of(f, td.stmt if td is not None else None, None if td is not None else tvar), okt, "t = time_ns() // 100 + 116444736000000000 (FILETIME of now)" if okt else f"{why}: expected exactly time.time_ns() // 100 + {EPOCH} (no offset, skew allowance or rounding)")
     same = all(rd.single_def(tvar, d.stmt) is td for d in role_defs.values())
     chk.ob("O3", Site.of(f, construct="all indices computed from one time value"), same, "one definition of the time feeds L0, L1 and L2" if same else "the indices are computed from different time values")
